@@ -206,3 +206,41 @@ fn witness_roundtrip_shared_move_stack() {
     }
     assert_eq!(bad, 0);
 }
+
+/// castling rights around the rooks' home squares: every kind of piece (the king included) capturing an unmoved rook, rooks and
+/// kings leaving home, a second rook leaving the far corner — the successor is compared with the rules for every generated move
+#[test]
+fn witness_successor_rook_home_squares() {
+    let mut bad = 0usize;
+    for fen in ["4k2r/6K1/8/8/8/8/8/8 w k - 0 40", "r3k3/1K6/8/8/8/8/8/8 w q - 0 40", "8/8/8/8/8/8/1k6/R3K3 b Q - 0 40", "8/8/8/8/8/8/6k1/4K2R b K - 0 40",
+                "4k2r/8/6N1/8/8/8/8/4K3 w k - 0 1", "4k2r/8/8/8/3B4/8/8/4K3 w k - 0 1", "4k2r/8/8/8/8/8/8/4K2R w Kk - 0 1", "r3k3/1P6/8/8/8/8/8/4K3 w q - 0 1",
+                "r3k2r/8/8/8/8/8/8/R3K2R w KQkq - 0 1", "r3k2r/8/8/8/8/8/8/R3K2R b KQkq - 0 1", "R3k3/8/8/8/8/8/8/R3K3 w Q - 5 40", "4k2r/8/8/8/8/8/8/4K2r b k - 5 40",
+                "r3k2r/1Q6/8/8/8/8/6q1/R3K2R w KQkq - 0 1", "r3k2r/1Q6/8/8/8/8/6q1/R3K2R b KQkq - 0 1"] {
+        let mut board = Bitboard::from_fen_string_unchecked(fen);
+        let before = snapshot(&board);
+        let mut all_moves = board.generate_pseudo_legal_moves();
+        all_moves.extend(board.generate_pseudo_legal_non_quiescent_moves());
+        for mv in all_moves {
+            let uci = mv.to_uci_string();
+            let t = uci.as_bytes();
+            let (tf, tr) = ((t[2] - b'a') as usize, (b'8' - t[3]) as usize);
+            let mut grid = Vec::new();
+            for row in fen.split(' ').next().unwrap().split('/') { let mut r = Vec::new(); for ch in row.chars() { if let Some(d) = ch.to_digit(10) { for _ in 0..d { r.push('.'); } } else { r.push(ch); } } grid.push(r); }
+            if grid[tr][tf] == 'k' || grid[tr][tf] == 'K' { continue; }
+            board.make(mv);
+            let got = Fen::from(&board).fen;
+            let expect = ref_successor(fen, &uci);
+            if got != expect {
+                if bad < 5 { println!("FAILING-INPUT: fen={:?} move {}: successor {:?}, the rules give {:?}", fen, uci, got, expect); }
+                bad += 1;
+            }
+            board.unmake(mv);
+            if snapshot(&board) != before {
+                if bad < 5 { println!("FAILING-INPUT: fen={:?} move {}: make+unmake gives {:?}", fen, uci, Fen::from(&board).fen); }
+                bad += 1;
+                board = Bitboard::from_fen_string_unchecked(fen);
+            }
+        }
+    }
+    assert_eq!(bad, 0);
+}
